@@ -2,7 +2,7 @@
    SVG.VerifyGen is regenerated from copy_api_from_app / verify_settings on every run; SV.DocDomain is the
    documented domain (one acceptance condition per validation site). Statements only. *)
 From Coq Require Import ZArith Bool List.
-From SV Require Import DocDomain Proofs_C12.
+From SV Require Import CInt DocDomain Proofs_C12.
 From SVG Require Import VerifyGen.
 Local Open Scope Z_scope.
 
@@ -16,3 +16,18 @@ Proof. exact rejects_iff_not_documented. Qed.
 Theorem set_parameter_rejects_iff : forall c p : config, in_type (effective c p) ->
   sp_rejects c p = negb (documented (effective c p)).
 Proof. intros c p H. unfold sp_rejects. apply rejects_iff_not_documented. exact H. Qed.
+
+(* the copy stage, for the one cell of the documented domain that is derived rather than copied: numerator and denominator, when both
+   are set, replace frame_rate - for every caller configuration c and every previous content p of the sequence control set *)
+Theorem frame_rate_cell_of_effective_configuration : forall c p,
+  f_frame_rate (effective c p) =
+  if negb (f_frame_rate_numerator c =? 0) && negb (f_frame_rate_denominator c =? 0)
+  then wrapU 32 (Z.shiftl (wrapU 32 (wrapU 32 (Z.shiftl (f_frame_rate_numerator c) 8) ÷ f_frame_rate_denominator c)) 8)
+  else f_frame_rate c.
+Proof. exact effective_frame_rate_cell. Qed.
+
+(* ... so that, in the caller's terms, the two frame-rate conditions hold exactly for 1/256 fps <= numerator / denominator < 240 + 1/256 fps *)
+Theorem frame_rate_conditions_in_caller_terms : forall c p, let n := f_frame_rate_numerator c in let d := f_frame_rate_denominator c in
+  0 < d -> 0 < n < 2 ^ 24 -> n < 65536 * d ->
+  ((f_frame_rate (effective c p) <=? 15728640) && negb (f_frame_rate (effective c p) =? 0) = true <-> d <= n * 256 /\ n * 256 < 61441 * d).
+Proof. exact frame_rate_from_caller. Qed.
